@@ -81,6 +81,8 @@ def run(ctx):
         n = 240 if ctx.quick() else 2400
         sc = [srv.gen_stream_case(r, 'tcp' if r.random() < 0.65 else 'rtu', auth=(srv.gen_auth(r) if r.random() < 0.2 else None)) for _ in range(n)]
         srv.stream_pass(ctx, sc, 'calls', 'correspondence:byte-stream-delivery:handler-calls', 'handler-calls.byte-stream')
+        hc = [srv.gen_hold_case(r, r.random() < 0.5) for _ in range(12 if ctx.quick() else 60)]
+        srv.stream_pass(ctx, hc, 'calls', 'request-while-the-handler-lock-is-held:handler-calls', 'handler-calls.request-while-locked')
         ro = [srv.gen_reopen_case(r) for _ in range(n)]
         srv.stream_pass(ctx, ro, 'calls', 'correspondence:rtu-port-reopen:handler-calls', 'handler-calls.rtu-reopen', reopen=True)
         calls['byte-streams'] = n
